@@ -131,8 +131,11 @@ class P(FlowFidelity):
                 # template, truncated at every offset (a swallowed skip error would re-parse that body as sets)
                 t2 = None
                 for pos in range(len(dsets) + 1):
-                    inner = dsets[rng.randrange(len(dsets))]
-                    s = g.enc_set(rng.choice([5000, 65000]), inner)
+                    # (the inner set carries records of its OWN, with fresh values: if they ever show up they were fabricated)
+                    ti_, _ = rng.choice(self.last_tpls)
+                    inner = g.enc_set(ti_.tid, b"".join(g.rand_record(ti_)[0] for _ in range(rng.choice([1, 2]))))
+                    # ... followed by a few more octets of the unknown set, so that a cut can fall AFTER the complete inner set
+                    s = g.enc_set(rng.choice([5000, 65000]), inner + bytes(rng.randrange(256) for _ in range(rng.choice([4, 8, 12]))))
                     msg = g.enc_msg(dsets[:pos] + [s] + dsets[pos:], seq=7)
                     for k in range(len(msg)):
                         line = pre + hx(msg[:k])
@@ -170,7 +173,7 @@ class P(FlowFidelity):
                 return "inserting an undecodable set (%s) changed the records of the other sets: %d records instead of %d" % (detail, len(recs), len(full or []))
             if kind == "trunc" and full is not None and recs != full[:len(recs)]:
                 extra = [r for r in recs if r not in full]
-                return "truncating the datagram at octet %d yields records that are not a prefix of the complete datagram's: %s" % (detail, (extra or recs)[:2])
+                return "truncating the datagram at octet %s yields records that are not a prefix of the complete datagram's: %s" % (detail, (extra or recs)[:2])
         strip = lambda o: SEP.join(re.sub(r" J:\S+$", "", x) for x in o.split(SEP))
         if strip(impl) != strip(model):
             return "model/implementation disagreement: impl %r model %r" % (strip(impl)[-300:], strip(model)[-300:])
